@@ -77,6 +77,17 @@ def m_expr(e):
         return "%s(%s)" % (e[1], ", ".join(m_expr(a) for a in e[2]))
     if k == "fun1":
         return "%s(%s)" % (e[1], m_expr(e[2]))
+    if k == "nf":
+        return "NF"
+    if k == "hof":
+        # ("hof", name, coll, fnref, init|None); fnref = ("named", f) | ("lit", id, params, ret, body)
+        fn = e[3]
+        if fn[0] == "named":
+            ft = fn[1]
+        else:
+            ps = ", ".join((x if t == "any" else "%s %s" % (t, x)) for t, x in fn[2])
+            ft = "func(%s)%s %s" % (ps, "" if fn[3] == "any" else ": " + fn[3], m_block(fn[4], 2))
+        return "%s(%s, %s%s)" % (e[1], m_expr(e[2]), ft, "" if e[4] is None else ", " + m_expr(e[4]))
     raise ValueError(k)
 
 
@@ -164,6 +175,18 @@ def m_stmt(s, ind):
         return "$[[[%s]]] = %s" % (m_expr(s[1]), m_expr(s[2]))
     if k == "emitf":
         return "emitf " + ", ".join(m_base(b) for b in s[1])
+    if k == "emitp":
+        return "emitp " + m_base(s[1]) + "".join(", " + m_str(x) for x in s[2])
+    if k == "emitlashed":
+        return ("emitp" if s[1] else "emit") + " (" + ", ".join(m_base(b) for b in s[2]) + ")"
+    if k == "printn":
+        return "printn " + m_expr(s[1])
+    if k == "eprint":
+        return "eprint " + m_expr(s[1])
+    if k == "dump":
+        return "dump" if s[1] is None else "dump " + m_expr(s[1])
+    if k == "edump":
+        return "edump"
     raise ValueError(k)
 
 
@@ -246,7 +269,24 @@ def c_expr(e):
         return "(ECall %s %s)" % (cb(e[1]), c_list(c_expr(a) for a in e[2]))
     if k == "fun1":
         return "(EFun1 %s %s)" % (FUN1[e[1]], c_expr(e[2]))
+    if k == "nf":
+        return "ENF"
+    if k == "hof":
+        fn = e[3]
+        if fn[0] == "named":
+            lit, name = False, fn[1]
+        else:
+            # the literal is hoisted into the function list under a name no identifier can have
+            lit, name = True, "#%d" % fn[1]
+            if name not in LITS:
+                LITS[name] = None
+                LITS[name] = c_fdef({"name": name, "params": fn[2], "ret": fn[3], "body": fn[4]})
+        return "(EHof %s %s %s %s %s)" % (HOFS[e[1]], c_expr(e[2]), coq_bool(lit), cb(name), "None" if e[4] is None else "(Some %s)" % c_expr(e[4]))
     raise ValueError(k)
+
+
+HOFS = {"apply": "HApply", "select": "HSelect", "reduce": "HReduce", "fold": "HFold", "any": "HAny", "every": "HEvery", "sort": "HSort"}
+LITS = {}
 
 
 def c_base(b):
@@ -310,14 +350,37 @@ def c_stmt(s):
         return "(SAssignPosVal %s %s)" % (c_expr(s[1]), c_expr(s[2]))
     if k == "emitf":
         return "(SEmitF %s)" % c_list("(%s, %s)" % (cb(b[1]), c_expr((b[0], b[1]))) for b in s[1])
+    if k == "emitp":
+        return "(SEmitP %s %s %s)" % (cb(s[1][1]), c_expr((s[1][0], s[1][1])), c_list(cb(x) for x in s[2]))
+    if k == "emitlashed" and len(s[2]) == 1:
+        # one emittable in parentheses is not lashed (buildEmitXStatementNode)
+        b = s[2][0]
+        return c_stmt(("emitp", b, [])) if s[1] else c_stmt(("emitnamed", b[1], (b[0], b[1]), []))
+    if k == "emitlashed":
+        return "(SEmitLashed %s %s)" % (coq_bool(s[1]), c_list("(%s, %s)" % (cb(b[1]), c_expr((b[0], b[1]))) for b in s[2]))
+    if k == "printn":
+        return "(SPrintN %s)" % c_expr(s[1])
+    if k == "eprint":
+        return "(SEprint %s)" % c_expr(s[1])
+    if k == "dump":
+        return "(SDump %s)" % ("None" if s[1] is None else "(Some %s)" % c_expr(s[1]))
+    if k == "edump":
+        return "SEdump"
     raise ValueError(k)
 
 
+def c_fdef(f):
+    return "{| f_name := %s; f_sub := %s; f_params := %s; f_ret := %s; f_body := %s |}" % (
+        cb(f["name"]), coq_bool(bool(f.get("sub"))), c_list("(%s, %s)" % (TY[t], cb(x)) for t, x in f["params"]), TY[f["ret"]], c_body(f["body"]))
+
+
 def coq_prog(p):
-    fs = c_list("{| f_name := %s; f_sub := %s; f_params := %s; f_ret := %s; f_body := %s |}" % (
-        cb(f["name"]), coq_bool(bool(f.get("sub"))), c_list("(%s, %s)" % (TY[t], cb(x)) for t, x in f["params"]), TY[f["ret"]], c_body(f["body"])) for f in p["funcs"])
-    return "{| p_funcs := %s; p_begin := %s; p_main := %s; p_end := %s |}" % (
-        fs, c_list(c_body(b) for b in p["begin"]), c_body(p["main"]), c_list(c_body(b) for b in p["end"]))
+    LITS.clear()
+    named = [c_fdef(f) for f in p["funcs"]]
+    begin, main, end = c_list(c_body(b) for b in p["begin"]), c_body(p["main"]), c_list(c_body(b) for b in p["end"])
+    fs = c_list(named + [v for v in LITS.values() if v is not None])
+    LITS.clear()
+    return "{| p_funcs := %s; p_begin := %s; p_main := %s; p_end := %s |}" % (fs, begin, main, end)
 
 
 def prog_size(p):
@@ -339,7 +402,7 @@ def ss(s):
     return n
 
 
-STMT_KINDS = {"assignposname", "assignposval", "emitf", "formulti", "callsub", "assign", "define", "assignsrec", "unset", "if", "while", "do", "for1", "for2", "forc", "cond", "break", "continue",
+STMT_KINDS = {"emitp", "emitlashed", "printn", "eprint", "dump", "edump", "assignposname", "assignposval", "emitf", "formulti", "callsub", "assign", "define", "assignsrec", "unset", "if", "while", "do", "for1", "for2", "forc", "cond", "break", "continue",
               "return", "print", "emit1", "emitmap", "emitnamed", "filter", "bare"}
 
 # ------------------------------------------------------------------ generator
@@ -350,6 +413,7 @@ WORDS = ["pan", "eks", "wye", "zee", "hat", ""]
 LOCALS = ["u", "v", "w", "t", "p", "q", "r"]
 OOS = ["sum", "cnt", "acc", "m", "last"]
 KINDS = ["int", "str", "bool", "map", "arr"]
+KTY = {"int": "int", "str": "str", "bool": "bool", "map": "map", "arr": "arr", None: "any"}
 ARRL = ["xs", "ys", "zs"]          # local array names (never chosen by the generic statements)
 OOSARR = ["arr1", "arr2"]
 SLICEWORDS = ["hello", "pan", "h\u00e9llo", "ab", "x"]
@@ -391,7 +455,7 @@ class Gen:
         r = self.rng
         choices = ["lit", "lit", "field", "local", "oos"]
         if d > 0:
-            choices += ["bin", "bin", "bin", "tern", "neg", "call", "index", "coal", "nr", "length", "aindex", "aindex", "alength"]
+            choices += ["bin", "bin", "bin", "tern", "neg", "call", "index", "coal", "nr", "length", "aindex", "aindex", "alength", "hof", "hof", "nf"]
         for _ in range(6):
             c = r.choice(choices)
             if c == "lit":
@@ -428,6 +492,10 @@ class Gen:
                 return ("index", self.e_arr(cx, d - 1, leaf="int"), self.e_aidx(cx, True))
             if c == "alength":
                 return ("fun1", "length", self.e_arr(cx, d - 1))
+            if c == "hof":
+                return self.e_hof(cx, "int", d - 1)
+            if c == "nf":
+                return ("nf",)
         return ("int", r.randint(0, 5))
 
     def e_aidx(self, cx, wide=False):
@@ -477,7 +545,7 @@ class Gen:
         r = self.rng
         choices = ["lit", "lit", "lit", "local", "local", "oos"]
         if d > 0:
-            choices += ["slice", "slice", "call"]
+            choices += ["slice", "slice", "call", "hof", "hof"]
         for _ in range(5):
             c = r.choice(choices)
             if c == "lit":
@@ -506,6 +574,8 @@ class Gen:
                     return ("oos", r.choice(ks))
             if c == "slice":
                 return ("slice", self.e_arr(cx, d - 1, leaf), self.e_bound(cx), self.e_bound(cx))
+            if c == "hof":
+                return self.e_hof(cx, "arr", d - 1)
             if c == "call":
                 fs = [f for f in self.funcs if f["kind"] == "arr" and f["name"] in cx["callable"]]
                 if fs:
@@ -571,7 +641,7 @@ class Gen:
         r = self.rng
         choices = ["lit", "cmpi", "cmpi", "cmps", "local"]
         if d > 0:
-            choices += ["and", "or", "not", "cmpmix", "tern", "pred", "pred"]
+            choices += ["and", "or", "not", "cmpmix", "tern", "pred", "pred", "hof"]
         for _ in range(6):
             c = r.choice(choices)
             if c == "lit":
@@ -595,6 +665,8 @@ class Gen:
                 return ("or", self.e_bool(cx, d - 1), self.e_bool(cx, d - 1))
             if c == "not":
                 return ("not", self.e_bool(cx, d - 1))
+            if c == "hof":
+                return self.e_hof(cx, "bool", d - 1)
             if c == "tern":
                 return ("tern", self.e_bool(cx, d - 1), self.e_bool(cx, d - 1), self.e_bool(cx, d - 1))
         return ("bool", True)
@@ -604,8 +676,12 @@ class Gen:
         choices = ["lit", "lit", "local", "oos"]
         if cx["fields"]:
             choices.append("srec")
+        if d > 0:
+            choices.append("hof")
         for _ in range(5):
             c = r.choice(choices)
+            if c == "hof":
+                return self.e_hof(cx, "map", d - 1)
             if c == "lit":
                 n = r.randint(0, 3)
                 kvs = []
@@ -703,6 +779,93 @@ class Gen:
                 args.append(self.e_kind(cx, k, min(d, 1)))
         return ("call", f["name"], args)
 
+    # ---- higher-order functions with function literals and named functions
+    def hof_fn(self, cx, params, ret_expr_of, ret_ty="any", named_ok=True):
+        """a callback with the given parameter names/kinds: a function literal written in place (it sees the enclosing locals)
+        or a named function (it does not).  ret_expr_of(cx2) builds the returned expression in the callback's context."""
+        r = self.rng
+        typed = r.random() < 0.3
+        ps = [((KTY[k] if typed and r.random() < 0.7 else "any"), n) for n, k in params]
+        pscope = {n: ("reserved" if k is None else k, None) for n, k in params}
+        named = named_ok and r.random() < 0.3
+        scopes = [pscope, {}] if named else cx["scopes"] + [pscope, {}]
+        cx2 = dict(cx, scopes=scopes, in_loop=False, ret=None, in_func=True, callable=[] if named else cx["callable"], fields=cx["fields"] and r.random() < 0.5)
+        body = []
+        c = r.random()
+        if c < 0.2:
+            body.append(("define", "var", "t0", self.e_int(cx2, 1)))
+            cx2["scopes"][-1]["t0"] = ("int", "var")
+        elif c < 0.3:
+            body.append(("print", ("bin", ".", ("str", "cb:"), ("coal", ("local", params[-1][0]), ("str", "?")))))
+        elif c < 0.34 and not named:
+            ls = self.lookup(cx["scopes"], "int")
+            if ls:
+                body.append(("assign", ("local", r.choice(ls)), [], ("int", r.randint(0, 3)), False))    # writes an enclosing local: outside the model
+        if r.random() < 0.25:
+            body.append(("if", [(self.e_cond(cx2, 1), [("return", ret_expr_of(cx2))])], None))
+        if r.random() < 0.97:
+            body.append(("return", ret_expr_of(cx2)))
+        rt = ret_ty if typed and r.random() < 0.6 else "any"
+        if named:
+            self.counter += 1
+            name = "hf%d" % self.counter
+            self.funcs.append({"name": name, "params": ps, "ret": rt, "kind": "hof", "body": body})
+            return ("named", name)
+        self.counter += 1
+        return ("lit", self.counter, ps, rt, body)
+
+    def e_hof(self, cx, kind, d):
+        r = self.rng
+        d = max(0, d)
+        ismap = r.random() < 0.3
+        coll = self.e_map(cx, d, leaf="int") if ismap else self.e_arr(cx, d, leaf="int")
+        if r.random() < 0.05:
+            coll = self.e_any(cx, 0)
+        L = lambda x: ("local", x)
+        intf = lambda names: (lambda cx2: ("bin", r.choice(["+", "*", "-"]), L(r.choice(names)), self.e_int(cx2, 1)) if r.random() < 0.8 else self.e_any(cx2, 0))
+        pred = lambda name: (lambda cx2: ("bin", r.choice(list(CMP)), ("coal", L(name), ("int", 0)), self.e_int(cx2, 0)) if r.random() < 0.9 else self.e_any(cx2, 0))
+        if kind == "int":
+            if ismap:
+                h = r.choice(["reduce", "fold"])
+                fn = self.hof_fn(cx, [("acck", "str"), ("accv", "int"), ("ek", "str"), ("ev", "int")],
+                                 lambda cx2: ("maplit", [(r.choice([("str", "sum"), L("ek"), L("acck")]), ("bin", "+", L("accv"), L("ev")))]) if r.random() < 0.92 else self.e_any(cx2, 0), "map")
+                init = ("maplit", [(("str", "sum"), self.e_int(cx, 0))]) if h == "fold" else None
+                if h == "fold" and r.random() < 0.05:
+                    init = self.e_any(cx, 0)
+                return ("index", ("hof", h, coll, fn, init), ("str", "sum"))
+            h = r.choice(["reduce", "fold"])
+            fn = self.hof_fn(cx, [("acc", "int"), ("e", "int")], intf(["acc", "e"]), "int")
+            return ("hof", h, coll, fn, self.e_int(cx, 0) if h == "fold" else None)
+        if kind == "bool":
+            h = r.choice(["any", "every"])
+            if ismap:
+                fn = self.hof_fn(cx, [("k", "str"), ("v", "int")], pred("v"), "bool")
+            else:
+                fn = self.hof_fn(cx, [("e", "int")], pred("e"), "bool")
+            return ("hof", h, coll, fn, None)
+        if kind == "map":
+            coll = self.e_map(cx, d, leaf="int")
+            h = r.choice(["apply", "select", "sort"])
+            if h == "apply":
+                fn = self.hof_fn(cx, [("k", "str"), ("v", "int")],
+                                 lambda cx2: ("maplit", [(r.choice([L("k"), ("bin", ".", L("k"), ("str", "x")), ("str", "z")]), intf(["v"])(cx2))]) if r.random() < 0.92 else self.e_any(cx2, 0), "map")
+            elif h == "select":
+                fn = self.hof_fn(cx, [("k", "str"), ("v", "int")], pred("v"), "bool")
+            else:
+                fn = self.hof_fn(cx, [("ak", "str"), ("av", "int"), ("bk", "str"), ("bv", "int")],
+                                 lambda cx2: r.choice([("bin", "-", L("av"), L("bv")), ("bin", "-", L("bv"), L("av"))]) if r.random() < 0.95 else self.e_any(cx2, 0), "int")
+            return ("hof", h, coll, fn, None)
+        # arrays
+        h = r.choice(["apply", "apply", "select", "sort"])
+        if h == "apply":
+            fn = self.hof_fn(cx, [("e", "int")], intf(["e"]), "int")
+        elif h == "select":
+            fn = self.hof_fn(cx, [("e", "int")], pred("e"), "bool")
+        else:
+            fn = self.hof_fn(cx, [("a1", "int"), ("b1", "int")],
+                             lambda cx2: r.choice([("bin", "-", L("a1"), L("b1")), ("bin", "-", L("b1"), L("a1"))]) if r.random() < 0.95 else self.e_any(cx2, 0), "int")
+        return ("hof", h, coll, fn, None)
+
     # ---- statements
     def block(self, cx, depth, n=None, new_scope=True):
         r = self.rng
@@ -754,6 +917,7 @@ class Gen:
             return self.byvalue_stmt(cx)
         kinds = ["assign"] * 6 + ["define"] * 3 + ["print"] * 2 + ["idxassign"] * 2 + ["compound"] * 2 + ["unset", "emit", "bare"]
         kinds += ["arrdef"] * 2 + ["arrassign"] * 3 + ["arrunset", "arrshow", "arrshow", "emitf"]
+        kinds += ["emitp", "emitp", "emitlashed", "printn", "eprint", "dump", "dump", "edump", "printcoll", "hofshow", "hofshow"]
         if cx["fields"] and not cx["in_func"]:
             kinds += ["posassign"] * 2 + ["posshow"]
         if depth > 0:
@@ -787,6 +951,42 @@ class Gen:
                 else:
                     items.append(("field", r.choice(FIELDS_INT + FIELDS_STR)))
             return ("emitf", items)
+        if k == "emitp":
+            base = ("oos", r.choice(OOS + ["nosuch"]))
+            ls = self.lookup(cx["scopes"], "map")
+            if ls and r.random() < 0.3:
+                base = ("local", r.choice(ls))
+            return ("emitp", base, r.choice([[], [], ["g"], ["g", "h"], ["g", "h", "i"]]))
+        if k == "emitlashed":
+            items = []
+            for _ in range(r.randint(1, 3)):
+                ls = self.lookup(cx["scopes"])
+                if ls and r.random() < 0.3:
+                    items.append(("local", r.choice(ls)))
+                else:
+                    items.append(("oos", r.choice(OOS + ["nosuch"])))
+            return ("emitlashed", r.random() < 0.5, items)
+        if k == "printn":
+            return ("printn", self.e_kind(cx, r.choice(["int", "str", "bool"]), 1))
+        if k == "eprint":
+            return ("eprint", self.e_kind(cx, r.choice(["int", "str"]), 1))
+        if k == "dump":
+            c = r.random()
+            if c < 0.4:
+                return ("dump", None)
+            if c < 0.7:
+                return ("dump", ("oos", r.choice(OOS + ["nosuch"])))
+            return ("dump", self.e_any(cx, 1))
+        if k == "edump":
+            return ("edump",)
+        if k == "printcoll":
+            return ("print", self.e_map(cx, 1) if r.random() < 0.5 else self.e_arr(cx, 1))
+        if k == "hofshow":
+            kind = r.choice(["int", "bool", "map", "arr", "arr"])
+            e = self.e_hof(cx, kind, 1)
+            if kind in ("map", "arr"):
+                return ("emit1", ("maplit", [(("str", "h"), e)])) if r.random() < 0.6 else ("print", e)
+            return ("print", e)
         if k == "posassign":
             pos = self.e_pos(cx)
             if r.random() < 0.5:
@@ -1327,6 +1527,46 @@ def hazards(p):
     for b in p["begin"] + [p["main"]] + p["end"] + [f["body"] for f in p["funcs"]]:
         walk_stmts(b, chk)
     return bool(found)
+
+
+def gen_chain(rng):
+    """two or three put verbs of one then-chain: every verb defines functions with the SAME names (f, g) and different bodies
+    and hands them to the higher-order functions; only the last verb prints.  NR is avoided after the first verb (it is the
+    reader's record number, not the verb's)."""
+    n = rng.choice([2, 2, 3])
+    L = lambda x: ("local", x)
+    verbs = []
+    for i in range(n):
+        last = i == n - 1
+        k1, k2 = rng.randint(1, 9), rng.randint(1, 9)
+        op = rng.choice(["+", "*", "-"])
+        f = {"name": "f", "params": [("any", "e")], "ret": "any", "body": [("return", ("bin", op, L("e"), ("int", k1)))]}
+        g = {"name": "g", "params": [("any", "acc"), ("any", "e")], "ret": "any",
+             "body": [("return", ("bin", "+", ("bin", "*", L("acc"), ("int", rng.randint(1, 3))), ("bin", "+", L("e"), ("int", k2))))]}
+        pr = {"name": "p", "params": [("any", "e")], "ret": "any", "body": [("return", ("bin", rng.choice([">", "<", "!="]), L("e"), ("int", rng.randint(0, 6))))]}
+        cmpf = {"name": "c", "params": [("any", "a1"), ("any", "b1")], "ret": "any",
+                "body": [("return", ("bin", "-", L("a1"), L("b1")) if rng.random() < 0.5 else ("bin", "-", L("b1"), L("a1")))]}
+        arr = ("arrlit", [("field", "a"), ("field", "b"), ("int", rng.randint(0, 9)), ("int", rng.randint(0, 9))])
+        main = []
+        uses = [("x", ("hof", "apply", arr, ("named", "f"), None)), ("y", ("hof", "fold", arr, ("named", "g"), ("int", 0))),
+                ("z", ("hof", "select", arr, ("named", "p"), None)), ("w", ("hof", "sort", arr, ("named", "c"), None)),
+                ("u", ("hof", "any", arr, ("named", "p"), None)), ("v", ("hof", "every", arr, ("named", "p"), None)),
+                ("r", ("hof", "reduce", arr, ("named", "g"), None))]
+        rng.shuffle(uses)
+        for name, e in uses[:rng.randint(2, 5)]:
+            main.append(("assign", ("field", name + str(i)), [], e, False))
+        if rng.random() < 0.5:
+            main.append(("assign", ("field", "a"), [], ("call", "f", [("field", "a")]), False))
+        main.append(("assign", ("oos", "n"), [], ("bin", "+", ("coal", ("oos", "n"), ("int", 0)), ("int", 1)), False))
+        end = [[("emit1", ("maplit", [(("str", "a"), ("int", rng.randint(0, 5))), (("str", "b"), ("int", rng.randint(0, 5))), (("str", "verb"), ("int", i)), (("str", "n"), ("oos", "n"))]))]]
+        if last and rng.random() < 0.5:
+            main.append(("print", ("hof", "apply", arr, ("named", "f"), None)))
+        p = {"funcs": [f, g, pr, cmpf], "begin": [], "main": main, "end": end}
+        verbs.append({"prog": p, "text": mlr_prog(p), "quiet": False})
+    ins = []
+    for _ in range(rng.randint(1, 3)):
+        ins.append([("a", str(rng.randint(-3, 9))), ("b", str(rng.randint(-3, 9)))])
+    return {"chain": verbs, "inputs": ins}
 
 
 def gen_case(rng):
